@@ -1,0 +1,17 @@
+//go:build verif
+
+package sql
+
+import (
+	"database/sql"
+	"database/sql/driver"
+
+	"seata.apache.org/seata-go/pkg/datasource/sql/types"
+	"seata.apache.org/seata-go/pkg/protocol/branch"
+)
+
+// RegisterDriversForVerif registers the AT and XA proxy drivers over an arbitrary target driver.
+func RegisterDriversForVerif(atName, xaName string, target driver.Driver) {
+	sql.Register(atName, &seataATDriver{seataDriver: &seataDriver{branchType: branch.BranchTypeAT, transType: types.ATMode, target: target}})
+	sql.Register(xaName, &seataXADriver{seataDriver: &seataDriver{branchType: branch.BranchTypeXA, transType: types.XAMode, target: target}})
+}
